@@ -13,25 +13,7 @@
 (*                        rational value lies in [lo, lo + 1)              *)
 (*   stops: sequence of [c |-> <<r,g,b,a>> (8 bit), o |-> offset (2^-12)]  *)
 (***************************************************************************)
-EXTENDS Integers, Sequences
-
-T12 == 4096
-
-FloorDiv(a, b) == a \div b                 \* TLA+ \div floors for b > 0
-Mod(a, b) == a % b
-
-(* triangle wave of period 2: Reflect(t) = t for t in [0,1], 2 - t in [1,2] *)
-Reflect(t) == LET m == Mod(t, 2 * T12) IN IF m <= T12 THEN m ELSE 2 * T12 - m
-(* fractional part; an offset exactly on a positive integer stays at the end of the ramp  *)
-(* only inside [0,1] itself: Repeat(1) = 1 is "inside", Repeat(2) = 0                      *)
-Repeat(t) == Mod(t, T12)
-
-Clamp(spread, t) ==
-  IF t >= 0 /\ t <= T12 THEN t
-  ELSE CASE spread = 1 -> IF t < 0 THEN 0 ELSE T12
-         [] spread = 2 -> Reflect(t)
-         [] spread = 3 -> Repeat(t)
-         [] OTHER -> -1
+EXTENDS Integers, Sequences, Spread
 
 C16(c) == c * 257
 
